@@ -6,6 +6,7 @@ import SV.GenProofs.TxThresholds
 import SV.GenProofs.TxComparator
 import SV.GenProofs.TxLists
 import SV.TxCache.ReachableSize
+import SV.TxCache.GoList
 namespace SV.Props.C07
 open SV SV.TxCache
 
@@ -77,5 +78,14 @@ theorem source_suffix_cut_is_the_models (n : Nat) (c : Tx) (rest : List Tx) :
     dropHigherRev n (c :: rest) =
       (if Gen.removeHigherStops c.nonce n = [true] then c :: rest else dropHigherRev n rest) :=
   GenProofs.dropHigherRev_cons_eq_source n c rest
+
+open GoList in
+/-- the suffix cut of eviction (`removeTransactionsWithHigherOrEqualNonce`, walking `Back()/Prev()` and saving `Prev()` before
+    `Remove`) over the transcribed `container/list` is the model's `keepLower`; the hashes come out from the back -/
+theorem go_list_suffix_cut_is_the_models (k : Nat) {s : SenderList} (h : SWF s) :
+    SWF (s.removeHigherOrEqual k).1
+    ∧ (s.removeHigherOrEqual k).1.items.toList = keepLower k s.items.toList
+    ∧ (s.removeHigherOrEqual k).2
+        = ((s.items.toList.drop (keepLower k s.items.toList).length).reverse).map (·.hash) := removeHigherOrEqual_refines k h
 
 end SV.Props.C07
